@@ -17,7 +17,7 @@ RULES = {
     'A2': ownership.rule_A2, 'A5': ownership.rule_A5, 'A6': ownership.rule_A6, 'A7': ownership.rule_A7, 'A8': ownership.rule_A8,
     'L': contracts.rule_L, 'K': contracts.rule_K, 'E1': contracts.rule_E1, 'E2': contracts.rule_E2, 'E3': contracts.rule_E3,
     'E6': contracts.rule_E6, 'E7': contracts.rule_E7, 'D2': contracts.rule_D2, 'E9': contracts.rule_E9, 'E4': contracts.rule_E4,
-    'E10': contracts.rule_E10, 'E11': contracts.rule_E11,
+    'E10': contracts.rule_E10, 'E11': contracts.rule_E11, 'OPT': contracts.rule_OPT, 'OPTDEP': contracts.rule_OPTDEP, 'EQ1': contracts.rule_EQ1,
     'C': stream.rule_C, 'POSW': stream.rule_POSW, 'B1': stream.rule_B1, 'POST': stream.rule_POST, 'RB': stream.rule_RB,
     'I': dims.rule_I, 'B3': dims.rule_B3, 'N2a': dims.rule_N2a,
     'B2': mutate.rule_B2, 'WB': mutate.rule_WB, 'N1': mutate.rule_N1, 'N2': mutate.rule_N2,
@@ -55,7 +55,7 @@ def _p(pid, rules, decided, declined, explanation, level='other', floors=None, a
                       floors=floors or {}, assumptions=list(assumptions) + COMMON_ASSUMPTIONS, exhaustive=exhaustive)
 
 
-_p('C18', ['H1', 'H3', 'E10', 'H4'],
+_p('C18', ['H1', 'H3', 'E10', 'H4', 'F2'],
    decided=["every struct-style code and endianness prefix maps to the dtype struct defines (regex classes = "
             "replacement tables = size table = struct.calcsize; prefix branches exhaustive)",
             "native-endian aliases point at the le/be dtype in the matching sys.byteorder branch (both branches, "
@@ -70,7 +70,7 @@ _p('C18', ['H1', 'H3', 'E10', 'H4'],
                "prefix; both sys.byteorder alias branches of __init__.py are read from the syntax tree.",
    floors={'H1': 60, 'H3': 120})
 
-_p('C17', ['H6', 'DELEG', 'L', 'A7', 'E5'],
+_p('C17', ['H6', 'DELEG', 'L', 'A7', 'E5', 'OPT', 'J1'],
    decided=["tofile writes exactly tobytes(), for sizes that span the writer's chunk boundary: the chunk size folds to a "
             "positive multiple of 8, so only the final chunk can be zero-padded (the > 100 MiB case no test reaches); "
             "every write is chunk.tobytes()",
@@ -144,7 +144,7 @@ _p('C01', ['K', 'E6', 'J2', 'A10', 'A1', 'A11'],
    explanation="Class-provenance typing of every return of the operator/slicing methods per concrete class; sibling guard "
                "comparison; call-graph reachability to field reads.")
 
-_p('C06', ['C', 'POSW', 'B1', 'POST', 'RB', 'E7', 'D2', 'J1', 'J2'],
+_p('C06', ['C', 'POSW', 'B1', 'POST', 'RB', 'E7', 'D2', 'J1', 'J2', 'OPT'],
    decided=["0 <= pos <= len in its structural part: _pos is definitely assigned on every escaping stream object; every "
             "_pos write is 0, the length, a validated/restored/found position, pos+len after a validated pos, or a "
             "bounded/checked increment; every effect that can change a BitStream's length is covered by stream-level "
@@ -163,7 +163,7 @@ _p('C06', ['C', 'POSW', 'B1', 'POST', 'RB', 'E7', 'D2', 'J1', 'J2'],
                "name, post-condition table keyed by method.",
    floors={'POSW': 25, 'B1': 18})
 
-_p('C07', ['E1', 'E2', 'E3', 'E11'],
+_p('C07', ['E1', 'E2', 'E3', 'E11', 'OPT'],
    decided=["an empty pattern raises ValueError in find, rfind, findall, split, replace (and `in`/readto by delegation)",
             "an invalid [start, end) raises: every public function with start/end validates them through _validate_slice "
             "(or forwards them unchanged to one that does) before any other use",
@@ -173,7 +173,7 @@ _p('C07', ['E1', 'E2', 'E3', 'E11'],
    explanation="Sibling guard agreement over the search entry points; forward-or-validate dataflow of start/end; taint of "
                "the raw bytealigned parameter to the store-level search sinks.")
 
-_p('C08', ['J1', 'J2', 'L', 'A7', 'A8'],
+_p('C08', ['J1', 'J2', 'L', 'A7', 'A8', 'A6', 'A3'],
    decided=["the complete observable state is the bit content: per-object fields are closed (__slots__) and _filename, "
             "immutable, modified_length, _pos are read only by the code whose role needs them; content operations "
             "reach no read of _pos/_filename",
@@ -186,7 +186,7 @@ _p('C08', ['J1', 'J2', 'L', 'A7', 'A8'],
    explanation="Field read-confinement census, representation-invariant check of BitStore.modified_length (abstract "
                "state at the exits of its writers), ingress-copy rules.")
 
-_p('C10', ['D2', 'E9', 'J1'],
+_p('C10', ['D2', 'E9', 'J1', 'OPTDEP', 'A1'],
    decided=["negative values for the unsigned codes are rejected (guard dominates the encoder)",
             "a truncated codeword raises ReadError (InterpretError through the property) and a codeword followed by "
             "extra bits is not accepted as a single value: exception translation chain decoder -> getter -> reader, "
@@ -197,7 +197,7 @@ _p('C10', ['D2', 'E9', 'J1'],
    explanation="Exception-translation and guard-dominance checks over the four setters, four getters, the decoders and the "
                "reader closures of DtypeDefinition.")
 
-_p('C13', ['HASH', 'J1', 'J2', 'D3', 'L', 'G3'],
+_p('C13', ['HASH', 'J1', 'J2', 'D3', 'L', 'G3', 'EQ1', 'A7'],
    decided=["BitArray and BitStream are unhashable, Bits and ConstBitStream hash (MRO resolution incl. Python's implicit "
             "__hash__ = None); ordering operators return NotImplemented",
             "== / != / hash have one implementation each for all classes and reach no read of _pos or _filename, so they "
@@ -208,7 +208,7 @@ _p('C13', ['HASH', 'J1', 'J2', 'D3', 'L', 'G3'],
    explanation="MRO resolution of __hash__/__eq__/__ne__ per class, field-dependence reachability, handler check of the "
                "promotion TypeError.")
 
-_p('C16', ['A1', 'A5', 'A8', 'A10', 'A11', 'E6', 'K', 'C', 'L'],
+_p('C16', ['A1', 'A5', 'A8', 'A10', 'A11', 'E6', 'K', 'C', 'L', 'G3', 'POSW'],
    decided=["operands are never modified by the non-in-place forms, including when both operands are the same object: no "
             "self store effect in the public operators of the immutable classes; mutated temporaries own fresh stores; "
             "BitStore-level binary operators and _copy build new stores",
@@ -220,7 +220,7 @@ _p('C16', ['A1', 'A5', 'A8', 'A10', 'A11', 'E6', 'K', 'C', 'L'],
    explanation="Effect summaries per public operator, provenance of mutated temporaries, sibling guard agreement, "
                "result-class typing.")
 
-_p('C03', ['B2', 'WB', 'N1', 'B1', 'E2', 'E11'],
+_p('C03', ['B2', 'WB', 'N1', 'B1', 'E2', 'E11', 'OPT'],
    decided=["an invalid position, range or value raises and leaves the content as it was: in every public mutator of "
             "BitArray/BitStream no explicit raise (directly, or in a loop through a raising callee) is reachable after the "
             "first change of self (operations over an iterable of positions exempt, by the property's wording)",
@@ -246,7 +246,7 @@ _p('C14', ['I', 'B3', 'B2', 'N2a', 'A9'],
    explanation="Dimension (unit) analysis over array_.py, atomicity path rule for in-place helpers, guard check on the "
                "only writer of Array._dtype.")
 
-_p('C20', ['M', 'D1', 'N1', 'N2', 'N2a', 'N3', 'N4', 'A5', 'B1', 'POSW', 'E7', 'E8', 'H1'],
+_p('C20', ['M', 'D1', 'N1', 'N2', 'N2a', 'N3', 'N4', 'A5', 'B1', 'POSW', 'E7', 'E8', 'H1', 'OPT', 'A1'],
    decided=["never an internal error class: AttributeError (every self.<attr> of every method resolves in every concrete "
             "class), AssertionError (29 asserts: facts at public call sites or reviewed reason), ZeroDivisionError "
             "(all divisions), KeyError (struct-code regexes cover the table lookups), NameError (all globals "
@@ -259,7 +259,7 @@ _p('C20', ['M', 'D1', 'N1', 'N2', 'N2a', 'N3', 'N4', 'A5', 'B1', 'POSW', 'E7', '
                "resolution, global-write census.",
    floors={'M': 1000, 'D1': 150, 'N1': 20, 'N2': 20})
 
-_p('C02', ['H4', 'H2', 'H3', 'LV'],
+_p('C02', ['H4', 'H2', 'H3', 'LV', 'OPTDEP', 'A7', 'F2'],
    decided=["every creation route (constructor keyword, property assignment, token string, Dtype.build, pack, Array "
             "element) and every reading route (property, property with length, Dtype.parse, unpack, read) dispatches "
             "through the registry's set/get/read function for the name, so routes cannot disagree",
@@ -290,7 +290,7 @@ _p('C12', ['G1', 'G2', 'G3', 'E8', 'E5', 'E9', 'N1'],
                "of slot variants.",
    floors={'G1': 13, 'E8': 13})
 
-_p('C15', ['CHOKE', 'E5', 'E4', 'LV', 'H3', 'H2', 'B2', 'D2', 'N2a'],
+_p('C15', ['CHOKE', 'E5', 'E4', 'LV', 'H3', 'H2', 'B2', 'D2', 'N2a', 'F2', 'OPT'],
    decided=["a length that is zero (integers), negative or not allowed for the type raises: Dtype objects are created only "
             "through get_dtype behind the allowed-length and non-negativity tests; integer/bfloat/float setters reject "
             "missing, zero or off-table lengths; registry allowed_lengths for floats, bfloat, bool, 8/6/4-bit floats, "
@@ -305,7 +305,7 @@ _p('C15', ['CHOKE', 'E5', 'E4', 'LV', 'H3', 'H2', 'B2', 'D2', 'N2a'],
    explanation="Who-may-call and guard-dominance check of the Dtype choke point, sibling agreement of setters and ingest "
                "routes, validate-before-mutate path rule.")
 
-_p('C19', ['ESC', 'POST', 'H3', 'N2', 'CHOKE'],
+_p('C19', ['ESC', 'POST', 'H3', 'N2', 'CHOKE', 'I'],
    decided=["pp output contains no terminal escape sequences when options.no_color is set: escape literals occur only in "
             "Colour.__new__ under `if use_colour`, the else branch assigns empty strings to the same attributes, and "
             "every Colour is constructed from `not options.no_color`",
